@@ -71,6 +71,12 @@ func main() {
 		idx := fs.Int("index", 0, "")
 		fs.Parse(os.Args[2:])
 		mon.RunSoloJob(*seed, *idx)
+	case "c14shared":
+		fs := flag.NewFlagSet("c14shared", flag.ExitOnError)
+		seed := fs.Int64("seed", 1, "")
+		idx := fs.Int("index", 0, "")
+		fs.Parse(os.Args[2:])
+		mon.RunSharedChild(*seed, *idx)
 	case "replay":
 		if len(os.Args) < 3 {
 			os.Exit(2)
